@@ -4,5 +4,7 @@ MRealms == {"a", "b"}
 MOrder == <<"a", "b">>
 MAccounts == {"u", "v"}
 MDiffs == {0 - 2, 0 - 1, 0, 1, 3}
+MDiffsQ == {0 - 1, 0, 2}
+MParams == {0 - 1, 0, 2}
 MDiffsT == {0 - 3, 0 - 2, 0 - 1, 0, 1, 2, 4}
 =============================================================================
